@@ -13,6 +13,7 @@ from harness import util
 from harness.gen import datasets as G
 from harness.gen import geomspec as S
 from harness.gen import pathclip as PC
+from harness.gen import c18_extra6 as E6
 
 # emsarray.transect imports cfunits, which needs the udunits2 C library (absent in this sandbox).
 # It is only used to format axis units; a stand-in module keeps the import working.
@@ -39,6 +40,10 @@ REQUIRED = ['Ems.C18.segment_start_le_end', 'Ems.C18.segments_sorted', 'Ems.C18.
             'Ems.C18.clip_sound', 'Ems.C18.clip_complete', 'Ems.C18.clip_none_iff', 'Ems.C18.clip_piece_iff',
             'Ems.C18.clip_path_sound', 'Ems.C18.clip_path_complete', 'Ems.C18.segments_within_cells',
             'Ems.C18.disjoint_interiors_pieces_overlap_only_on_boundaries', 'Ems.C18.shared_edge_same_piece']
+# sixth round: theorems about the new input classes (recorded tracks, resolution)
+EXTRA_MODULES = list(globals().get('EXTRA_MODULES', [])) + ['EmsModel.Props.C18Tracks', 'EmsModel.Props.C18Resolution']
+REQUIRED += ['Ems.C18.every_leg_has_its_segment', 'Ems.C18.runs_without_the_joining_leg_lose_a_cell',
+             'Ems.C18.resolution_invariant', 'Ems.C18.transect_resolution_invariant']
 RULE = ('grids (CF 1-D, CF 2-D / SHOC simple with stored bounds and holes, SHOC standard with masked nodes) and UGRID meshes '
         '(triangles, quads, concave, collinear, dropped cells) on unsheared integer lattices x polylines with vertices on the '
         'half-integer lattice and axis-parallel / 45-degree legs (so every cut point is exactly representable): several vertices, '
@@ -62,7 +67,20 @@ RULE = ('grids (CF 1-D, CF 2-D / SHOC simple with stored bounds and holes, SHOC 
         'coherent, start <= end, path order, pieces equal to the exact Fraction clip, lengths add up to the path length inside '
         'the model, data pairing (column j of every prepared array = the generator\'s tag values of the cell of segment j at every depth, '
         'shape (depth, segments); an exception from the preparation is a failure of the clause, not of the run). Non-trivial: >= 3 segments, or a hole / re-entry / edge-running stretch; distinct by '
-        '(recipe, path).')
+        '(recipe, path). '
+        # ---- sixth round
+        'Sixth round (harness/gen/c18_extra6.py, a random stream of its own): (a) RESOLUTION - the models and paths of all the classes '
+        'above drawn at 2^-k degrees per lattice unit, k = 1..14 (cells from ~50 km down to a few metres; path vertices and cut points '
+        'metres to kilometres apart), anywhere in longitude, astride the equator; every clipped cell goes to the Lean clipper twice, as '
+        'drawn and on the lattice (resolution_invariant), and both must be what GEOS returned. (b) TRACKS - paths of 6..300 vertices as '
+        'an instrument records them: runs of fixes 1/8..3/4 of a cell apart, passages of legs 1.5..3.5 cells long, and mixtures (a '
+        'two-state chain: all passage / stations joined by passages / mixed / nearly all dense), turning round at the sides of the model, '
+        'two tracks per model, over CF 1-D, CF 2-D / SHOC simple with holes, SHOC standard with masked nodes and UGRID meshes (concave '
+        'faces, dropped cells) that are 2..4 cells across and up to 170 cells long, drawn at 2^-2..2^-12 degrees per unit; 40 % sailed '
+        'the other way. Every oracle above applies unchanged (exact Fraction clip of every cell against every leg; a long track over a '
+        'long model sends a sample of its crossed cells to the Lean clipper instead of the whole transect). (c) on the models of this '
+        'round the distance a segment covers (end_distance - start_distance) is compared with the geodesic length (pyproj, WGS84) of its '
+        'piece of the path, leg by leg.')
 TRUSTED = ['GEOS polygon-line intersection itself (compared on every case with the proved Lean clipper on exactly representable cut '
            'points, never proved); cartopy / PROJ distances are only used for ordering',
            'for concave mesh faces the Lean reference is the event-based clipPathSimple (no theorem; agrees with the proved convex '
@@ -70,6 +88,11 @@ TRUSTED = ['GEOS polygon-line intersection itself (compared on every case with t
            'insideConvex (intersection of the edge half-planes) is the cell polygon only for convex rings: `convex` is decided in Lean '
            'and compared with GEOS; that the half-plane set of a convex ring equals the ring\'s polygon is classical geometry, not proved']
 ASSUMPTIONS = ['metric lengths depend on PROJ floating point: only parameter-space coverage is proved; planar lengths are compared with a 1e-9 relative tolerance in the oracle',
+               'in this sandbox cartopy\'s PlateCarree -> azimuthal equidistant conversion displaces every per-vertex projection centre northwards by '
+               '0.67 % of its latitude (21 km at 45 degrees; DESIGN.md 8.4), so the distances of the unchanged code are in path order only where that '
+               'is well below the shortest piece of path: the fine-resolution models and the tracks of the sixth round therefore lie astride the equator '
+               '(vertices within 18 half-lattice units / 3 cells of it), and the metric comparison of a segment\'s covered distance with the geodesic '
+               'length of its piece allows 1.5 % of the distance from the equator per measurement + 2 % of the length',
                'segments_within_cells is proved for convex cells (CF grids, SHOC, convex mesh faces); for concave mesh faces "lies within its cell" rests on the correspondence and the oracle']
 LEVEL_NOTE = ('The clipping of the path against a convex cell is part of the Lean model and proved exact (every point of a piece is in '
               'the cell, every point of the leg in the cell is in the piece); GEOS is compared against it, not against Python code. '
@@ -198,10 +221,10 @@ def truth_layers(info, gdims, kname='k'):
     return arr.reshape(arr.shape[0], -1)
 
 
-def examine(ctx, recipe, items) -> None:
+def examine(ctx, recipe, items, rng=None) -> None:
     cleanup: list = []
     try:
-        examine_stored(ctx, recipe, items, cleanup)
+        examine_stored(ctx, recipe, items, cleanup, rng)
     finally:
         for fn in cleanup:
             try:
@@ -210,9 +233,30 @@ def examine(ctx, recipe, items) -> None:
                 pass
 
 
-def examine_stored(ctx, recipe, items, cleanup) -> None:
+def own_paths(ctx, rng, xs, ys):
+    """the three paths of a recipe of the first five rounds, drawn one at a time (the stream is shared with the case body)"""
+    for _ in range(3):
+        path = make_path(rng, xs, ys)
+        if rng.random() < 0.4:
+            # the same track sailed the other way (x never increasing): the cells are met in another order, in general
+            # neither increasing nor decreasing linear index
+            path = path[::-1]
+            ctx.count('path:east-to-west')
+        # a track may carry a third ordinate (altitude of the instrument, say): the cells are two-dimensional and the
+        # path's position over them does not depend on it
+        zs = [rng.choice([0, 10, 900, -50]) for _ in path] if rng.random() < 0.3 else None
+        yield path, zs
+
+
+# above this many (cells x legs) a case is judged by the oracle and by per-cell `clip` lines of a sample of cells only
+# (the `transect` line clips every cell against every leg in the interpreted driver)
+BIG_CASE = 3000
+MANY_CELLS = 64      # above this many cells `convex` is asked for the cells that are clipped, not for every cell
+
+
+def examine_stored(ctx, recipe, items, cleanup, rng=None) -> None:
     from emsarray import transect
-    rng = ctx.rng
+    rng = rng or ctx.rng
     built = G.build(recipe)
     ds, kdim = add_depth(built, rng)
     store = recipe.get('store')
@@ -246,17 +290,11 @@ def examine_stored(ctx, recipe, items, cleanup) -> None:
         cv = '1' if gp.area > 0 and gp.convex_hull.area == gp.area else '0'
         cvx[n] = cv
         ctx.count(f'cell-convex:{cv}')
-        items.append((f'convex {ring_str(q)}', cv, {'recipe': recipe, 'cell': n, 'op': f'convex {ring_str(q)}'}))
-    for _ in range(3):
-        path = make_path(rng, xs, ys)
-        if rng.random() < 0.4:
-            # the same track sailed the other way (x never increasing): the cells are met in another order, in general
-            # neither increasing nor decreasing linear index
-            path = path[::-1]
-            ctx.count('path:east-to-west')
-        # a track may carry a third ordinate (altitude of the instrument, say): the cells are two-dimensional and the
-        # path's position over them does not depend on it
-        zs = [rng.choice([0, 10, 900, -50]) for _ in path] if rng.random() < 0.3 else None
+        if len(cells) <= MANY_CELLS:
+            items.append((f'convex {ring_str(q)}', cv, {'recipe': recipe, 'cell': n, 'op': f'convex {ring_str(q)}'}))
+    # ---- extra6: a recipe of the sixth round (resolution / tracks) brings its own paths -------------------------
+    source = E6.paths(ctx, rng, recipe, xs, ys, make_path) if recipe.get('e6') else own_paths(ctx, rng, xs, ys)
+    for path, zs in source:
         if zs is None:
             line = shapely.LineString([(float(x), float(y)) for x, y in path])
         else:
@@ -264,10 +302,11 @@ def examine_stored(ctx, recipe, items, cleanup) -> None:
         desc = {'recipe': recipe, 'path': [[str(x), str(y)] for x, y in path], 'z': zs}
         # ---- ground truth pieces (exact) -------------------------------------------------------------
         truth = []
+        boxes = PC.leg_boxes(path)
         for n, q in enumerate(kept):
             if q is None:
                 continue
-            ivs = PC.clip(path, q)
+            ivs = PC.clip(path, q, boxes)
             if ivs:
                 truth.append((n, ivs))
         pieces = ';'.join(f"{n}=" + ','.join(f'{rat(a)}:{rat(b)}' for a, b in ivs) for n, ivs in truth) or '-'
@@ -304,15 +343,33 @@ def examine_stored(ctx, recipe, items, cleanup) -> None:
         pstr = ring_str(path)
         cells_s = '|'.join(f'{n}={ring_str(q)}' for n, q in enumerate(kept) if q is not None) or '-'
         tline = f'transect {pstr} {cells_s}'
-        items.append((tline, out, {**desc, 'op': tline}))
-        for n in sorted(set(merged) | {n for n, _ in truth}):
+        # ---- extra6: a long track over a long model is clipped by the driver for a sample of its cells only
+        big = len(cells) * (len(path) - 1) > BIG_CASE
+        ctx.count('lean-reference:' + ('sample-of-cells' if big else 'every-cell'))
+        if not big:
+            items.append((tline, out, {**desc, 'op': tline}))
+        crossed = sorted(set(merged) | {n for n, _ in truth})
+        tracked = bool(recipe.get('e6', {}).get('tracks'))
+        if big or tracked:
+            # (the whole-transect line above, when it is sent, has every cell; the per-cell lines repeat the long path)
+            crossed = crossed[::max(1, len(crossed) // 3)][:4]
+        for position, n in enumerate(crossed):
+            if len(cells) > MANY_CELLS and 0 <= n < len(kept) and kept[n] is not None:
+                items.append((f'convex {ring_str(kept[n])}', cvx[n], {'recipe': recipe, 'cell': n, 'op': f'convex {ring_str(kept[n])}'}))
             if not (0 <= n < len(kept)) or kept[n] is None:
                 continue        # a segment of a cell without geometry: the oracle below reports it
             want = ','.join(f'{rat(a)}:{rat(b)}' for a, b in merged.get(n, [])) or '-'
             cline = f'clip {ring_str(kept[n])} {pstr}'
             items.append((cline, want, {**desc, 'cell': n, 'op': cline}))
+            if recipe.get('e6') and (not tracked or position < 2):
+                # extra6: the same cell and path on the lattice they were drawn from (Ems.C18.resolution_invariant): same pieces
+                e6 = recipe['e6']
+                lline = (f'clip {ring_str([E6.to_lattice(e6, x, y) for x, y in kept[n]])} '
+                         f'{ring_str([E6.to_lattice(e6, x, y) for x, y in path])}')
+                items.append((lline, want, {**desc, 'cell': n, 'drawn': 'on the lattice', 'op': lline}))
             pline = f'propcheck {ring_str(kept[n])} {pstr}'
-            items.append((pline, 'ok', {**desc, 'cell': n, 'op': pline}))
+            if not tracked or position < 1:
+                items.append((pline, 'ok', {**desc, 'cell': n, 'op': pline}))
             ctx.count('clip-pairs:convex-cell(proved clipper)' if cvx.get(n) == '1' else 'clip-pairs:concave-cell(event clipper)')
             if len(merged.get(n, [])) >= 2:
                 ctx.count('clip-pairs:cell-left-and-re-entered')
@@ -344,6 +401,17 @@ def examine_stored(ctx, recipe, items, cleanup) -> None:
             if back != n or s.polygon is not polys[n] and not s.polygon.equals(polys[n]):
                 ctx.oracle_fail('segment-index-incoherent', desc, f'segment names linear index {n}, native index {s.index} is cell {back}')
                 break
+        # ---- extra6: the distance a segment covers (end - start, metres) is the length of its piece of the path. Judged on
+        # the models of the sixth round only: they lie astride the equator, where the displaced projection centres of this
+        # sandbox (DESIGN.md 8.4) change a distance by a known, small amount (harness/gen/c18_extra6.py)
+        if recipe.get('e6') and order_ok:
+            wrong = E6.metric_failures(path, segs, got)
+            ctx.evaluated()
+            if wrong:
+                pos, n, covered, expected, tol = wrong[0]
+                ctx.oracle_fail('segment-distance-not-the-length-of-its-piece', desc,
+                                f'segment {pos} (cell {n}) covers {covered:.3f} m of the transect (end_distance - start_distance) '
+                                f'but its piece of the path is {expected:.3f} m long (tolerance {tol:.3f} m); {len(wrong)} such segment(s)')
         # coverage: the lengths add up to the length of the path inside the model
         union = shapely.unary_union([p for p in polys if p is not None])
         inside_len = line.intersection(union).length
@@ -412,7 +480,7 @@ def examine_stored(ctx, recipe, items, cleanup) -> None:
             # ... and for the same numbers held the other way round (the dataset in memory, the array to plot dask-backed in
             # small chunks along the grid dimensions, or the reverse): which cell a column belongs to does not depend on it
             if da.chunks is None:
-                n3 = rng.choice([1, 2, 3])
+                n3 = rng.choice([1, 2, 3]) * (1 if len(cells) <= 64 else 8)     # (extra6: long models in larger chunks)
                 da3 = da.chunk({d: (-1 if d == kdim else n3) for d in da.dims})
                 how3 = f'chunked by {n3} along the grid dimensions'
             else:
@@ -445,8 +513,19 @@ def has_concave_face(recipe) -> bool:
     return False
 
 
-def make_recipe(ctx, k, concave: bool = False):
-    rng = ctx.rng
+def dress(rng, recipe):
+    """the data variable, its dimension order and how the dataset holds its numbers"""
+    recipe = dict(recipe)
+    recipe['vars'] = [{'name': 'temp', 'kind': 'face', 'extra': ['k'], 'base': 1000, 'dtype': 'f8'}]
+    recipe['sizes_extra'] = {'k': 2}
+    probe = G.build({k_: v for k_, v in recipe.items() if k_ not in ('vars', 'sizes_extra')})
+    G.finalize_var_orders(rng, recipe['vars'], probe.grids, permute=True)
+    recipe['store'] = random_store(rng)
+    return recipe
+
+
+def make_recipe(ctx, k, concave: bool = False, rng=None):
+    rng = rng or ctx.rng
     conv = 'ugrid' if concave else G.CONVS[k % len(G.CONVS)]
     if concave:
         # the stream of meshes with a concave face (L-shaped hexagons, pentagons with a reflex vertex): the cells the
@@ -467,13 +546,7 @@ def make_recipe(ctx, k, concave: bool = False):
         recipe = G.random_shoc_standard(rng, max_n=4, axis_aligned=True)
     else:
         recipe = G.random_ugrid(rng, max_w=3, max_h=3, sheared=False, coords_as='vars', tables=[], edge_dim_declared=False)
-    recipe = dict(recipe)
-    recipe['vars'] = [{'name': 'temp', 'kind': 'face', 'extra': ['k'], 'base': 1000, 'dtype': 'f8'}]
-    recipe['sizes_extra'] = {'k': 2}
-    probe = G.build({k_: v for k_, v in recipe.items() if k_ not in ('vars', 'sizes_extra')})
-    G.finalize_var_orders(rng, recipe['vars'], probe.grids, permute=True)
-    recipe['store'] = random_store(rng)
-    return recipe
+    return dress(rng, recipe)
 
 
 def run(ctx) -> None:
@@ -484,6 +557,19 @@ def run(ctx) -> None:
     for k in range(ctx.budget(8, 60)):
         recipe = make_recipe(ctx, k, concave=True)
         ctx.guarded(lambda: examine(ctx, recipe, items), {'recipe': recipe})
+    # ---- extra6 (own stream, after everything that draws from ctx.rng) -------------------------------------------
+    sub = E6.sub_rng(ctx)
+    for k in range(ctx.budget(12, 90)):
+        # the models of the loops above at 2^-k degrees per lattice unit, astride the equator
+        recipe = E6.random_placement(sub, make_recipe(ctx, k, concave=(k % 6 == 5), rng=sub))
+        ctx.guarded(lambda: examine(ctx, recipe, items, rng=sub), {'recipe': recipe})
+    for k in range(ctx.budget(10, 80)):
+        # recorded tracks (tens to hundreds of vertices: stations, passages) over models long enough to hold them
+        recipe = dress(sub, E6.track_recipe(sub, k))
+        if recipe['store']:
+            recipe['store'] = {**recipe['store'], 'grid': sub.choice([3, 8, 20, 50, -1])}
+        ctx.guarded(lambda: examine(ctx, recipe, items, rng=sub), {'recipe': recipe})
+    # ---- /extra6 ---------------------------------------------------------------------------------------------------
     if ctx.searching and ctx.driver is None:
         ctx.evaluated(len(items))
         return
@@ -522,6 +608,43 @@ def rerun_data(inp) -> dict:
                 pass
 
 
+def rerun_segments(inp) -> dict:
+    """(extra6) re-execute the segment clauses on the real code for a recorded input (recipe, path): cells and path parameters of
+    the segments in the order reported, against the exact clip of the path against every cell"""
+    from emsarray import transect
+    cleanup: list = []
+    try:
+        recipe = inp['recipe']
+        built = G.build(recipe)
+        ds, kdim = add_depth(built, None)
+        ds = apply_store(ds, recipe.get('store'), kdim, [n for n, i in built.vars.items() if i.kind is not None], cleanup)
+        built.conv_class(ds).bind()
+        path = [(Fraction(x), Fraction(y)) for x, y in inp['path']]
+        zs = inp.get('z')
+        line = shapely.LineString([(float(x), float(y)) + ((float(zs[i]),) if zs else ()) for i, (x, y) in enumerate(path)])
+        segs = transect.Transect(ds, line).segments
+        got = [(int(s.linear_index), PC.param_of((Fraction(s.start_point.x), Fraction(s.start_point.y)), path),
+                PC.param_of((Fraction(s.end_point.x), Fraction(s.end_point.y)), path)) for s in segs]
+        vbits = S.geos_valid_bits(built.polys)
+        exact = sorted((n, a, b) for n, q in enumerate(built.polys) if q is not None and vbits[n] == '1' for a, b in PC.clip(path, q))
+        out = {'path_vertices': len(path), 'segments_reported': len(got), 'pieces_of_the_exact_clip': len(exact),
+               'cells_crossed_without_a_segment': sorted({n for n, _, _ in exact} - {n for n, _, _ in got})[:20]}
+        if all(a is not None and b is not None for _, a, b in got):
+            out['start_after_end'] = [(n, str(a), str(b)) for n, a, b in got if a > b][:5]
+            out['in_path_order'] = all((got[i][1], got[i][2]) <= (got[i + 1][1], got[i + 1][2]) for i in range(len(got) - 1))
+            if recipe.get('e6') and out['in_path_order']:
+                out['covered_distance_differs_from_piece_length'] = [
+                    f'segment {pos} cell {n}: covers {c:.3f} m, piece {e:.3f} m (tolerance {t:.3f})'
+                    for pos, n, c, e, t in E6.metric_failures(path, segs, got)][:5]
+        return out
+    finally:
+        for fn in cleanup:
+            try:
+                fn()
+            except Exception:
+                pass
+
+
 def run_one(ctx, inp):
     out = {}
     if inp.get('op') and ctx.driver:
@@ -530,6 +653,10 @@ def run_one(ctx, inp):
         import warnings
         warnings.simplefilter('ignore')
         out.update(rerun_data(inp))
+    elif inp.get('recipe') and inp.get('path') and not inp.get('op'):
+        import warnings
+        warnings.simplefilter('ignore')
+        out.update(rerun_segments(inp))
     return out
 
 
